@@ -84,7 +84,7 @@ def run_script_case(script, subdir, exes, queries=None, seed=0, tier="quick", va
         if script is None:
             if variant == "nocommit":
                 repo.do(["git", "init", "-q", "-b", "main"])
-                repo.do(["write", CFG_NAME, CFG])
+                repo.do(["write", CFG_NAME, rng.choice(CFGS)])
                 for _ in range(rng.randint(1, 5)):
                     mutate_worktree(rng, repo, [], hist)
             else:
@@ -139,7 +139,14 @@ def run_script_case(script, subdir, exes, queries=None, seed=0, tier="quick", va
                 elif full_status[f] != r:
                     bad.append("status of %r differs from the full run: %s vs %s" % (p, r, full_status[f]))
             if struct != full_struct:
-                bad.append("structure results differ from the full run (%d vs %d entries)" % (len(struct), len(full_struct)))
+                def brief(x):
+                    j = json.loads(x)
+                    return "%s [%s] %s" % (j.get("path"), j.get("status"), j.get("override_reason"))
+                lost = [brief(x) for x in full_struct if x not in struct]
+                spurious = [brief(x) for x in struct if x not in full_struct]
+                bad.append("structure results differ from the full run (%d vs %d entries): missing from the restricted run %s; "
+                           "only in the restricted run %s%s" % (len(struct), len(full_struct), lost[:4], spurious[:4],
+                                                              "" if lost or spurious else " (same entries, different order)"))
             return files, bad
 
         # ---- staged
